@@ -33,7 +33,9 @@ def strategy(multi_bias=True):
         mode = draw(st.sampled_from(['single', 'multi', 'multi']))
         run = {'method': method, 'mode': mode, 'no_rejects': draw(st.sampled_from([False, False, True])),
                'eject_every': draw(st.sampled_from([None, None, 0, 0, 1, 2, 3, 7])),
-               'index_state': draw(st.sampled_from(['fresh', 'fresh', 'fresh', 'missing', 'older', 'older_same_second']))}
+               'index_state': draw(st.sampled_from(['fresh', 'fresh', 'fresh', 'missing', 'older', 'older_same_second'])),
+               # the aligner's own read group tag on the input records (bwa mem -R), or that of an earlier tagging run
+               'input_rg': draw(st.sampled_from([None, None, None, 'bwa_lib1', 'FLOWCELL.1.simlib_1']))}
         if draw(st.integers(0, 4)) == 0:
             names = [c[0] for c in spec['contigs']]
             run['skip_contig'] = draw(st.lists(st.sampled_from(names), min_size=1, max_size=2, unique=True))
@@ -68,6 +70,9 @@ def run_case(case, keep=False):
     os.makedirs(d)
     bam_in = os.path.join(d, 'in.bam')
     bam_out = os.path.join(d, 'out.bam')
+    if run.get('input_rg'):
+        for r in records:
+            r.setdefault('tags', {})['RG'] = run['input_rg']
     write_bam(bam_in, contigs, records)
     ist = run.get('index_state', 'fresh')
     if ist == 'missing':
